@@ -238,7 +238,8 @@ def seeded():
         kind = "failing input" if last.get("first_violations") else "broken obligation/correspondence"
         out.append("| %s | %s | %s | %s | %s: %s |" % (
             m["id"], ", ".join("`%s`" % f.replace("bandit/", "") for f in m["files_changed"]), head.replace("|", "/"),
-            "caught" if first["caught"] else "**missed**", kind if last["caught"] else "**missed**", how))
+            "caught" if first["caught"] else "**missed**",
+            "no longer breaks the property (the defect it relied on was repaired)" if m.get("no_longer_breaks_property") else kind if last["caught"] else "**missed**", how))
     return "\n".join(out)
 
 
